@@ -2,6 +2,7 @@ from collections import OrderedDict
 import enum
 import json
 import logging
+import re
 from pathlib import Path, PosixPath, WindowsPath
 from typing import Any, AnyStr, Callable, IO, List, Optional, Union, cast
 from typing_extensions import Protocol, Type
@@ -26,6 +27,13 @@ class JsonDumperState(enum.Enum):
     MAPPING_KEY = 3,
     MAPPING_KEY_FIRST = 4,
     MAPPING_VALUE = 5
+
+
+_YAML12_FLOAT_REGEX = re.compile(
+        r'^(?:[-+]?(?:(?:[0-9]+[eE][-+]?[0-9]+'
+        r'|[0-9]+\.([eE][-+]?[0-9]+)?'
+        r'|[0-9]*\.[0-9]+([eE][-+]?[0-9]+)?)'
+        r'|\.(?:inf|Inf|INF)|\.(?:nan|NaN|NAN)))\Z')
 
 
 class Dumper(yaml.SafeDumper):
@@ -56,6 +64,16 @@ class Dumper(yaml.SafeDumper):
                 self, stream, default_style, default_flow_style, canonical,
                 indent, width, allow_unicode, line_break, encoding,
                 explicit_start, explicit_end, version, tags, False)
+
+        # The loader resolves floats according to YAML 1.2, PyYAML's
+        # dumper decides what to quote according to YAML 1.1. Strings
+        # like 1e5 are floats only in 1.2, so quote those as well.
+        self.yaml_implicit_resolvers = {
+                first: list(resolvers) for first, resolvers
+                in self.yaml_implicit_resolvers.items()}
+        for first in '-+0123456789.':
+            self.yaml_implicit_resolvers.setdefault(first, []).append(
+                    ('tag:yaml.org,2002:float', _YAML12_FLOAT_REGEX))
 
         self._json_state = [JsonDumperState.NONE]
         self._cur_indent = 0
